@@ -18,20 +18,29 @@ Check C02_text : forall s : str, transform_text s = jsx_clean s.
 
 (* written children in order: cleaned text, expressions, spliced spreads, nested vnodes;
    empty expressions and text cleaning to "" contribute nothing *)
-Theorem C02_children_in_order : forall E rec chk fail cs s,
-  rec_ok rec chk cs -> forallb child_ok cs = true ->
-  check_items_with chk fail cs (view_items (fst (lower_children_with E rec cs s))) = [].
+(* [P] is any property of the visitor state that the lowering of nested elements preserves
+   (it lets the statement be used where nested elements are lowered only in states with no
+   pending assignment target); take [fun _ => True] for the plain reading *)
+Theorem C02_children_in_order : forall E rec chk fail (P : st -> Prop),
+  (forall v s, P s -> P (snd (transform_jsx_text v s))) ->
+  (forall e s, P s -> P (mark_dynamic E e s)) ->
+  forall cs s, P s -> rec_ok rec chk P cs -> forallb child_ok cs = true ->
+  check_items_with chk fail cs (view_items (fst (lower_children_with E rec cs s))) = []
+  /\ P (snd (lower_children_with E rec cs s)).
 Proof. exact children_items. Qed.
 Print Assumptions C02_children_in_order.
 
 (* the children argument of an element host: the array of those children, null when none remain *)
-Theorem C02_children_argument : forall E rec chk cs s s2 vslots,
-  rec_ok rec chk cs -> forallb child_ok cs = true ->
+Theorem C02_children_argument : forall E rec chk (P : st -> Prop),
+  (forall v s, P s -> P (snd (transform_jsx_text v s))) ->
+  (forall e s, P s -> P (mark_dynamic E e s)) ->
+  forall cs s s2 vslots,
+  P s -> rec_ok rec chk P cs -> forallb child_ok cs = true ->
   assign_left s2 = None ->
   sole_special (live_children cs) = false ->
   check_children_with E chk false vslots cs
     (fst (finish_children E (fst (lower_children_with E rec cs s)) false vslots s2)) = [].
-Proof. intros. apply children_refine; auto. Qed.
+Proof. intros. eapply children_refine; eauto. Qed.
 Print Assumptions C02_children_argument.
 
 (* the known finding: `<div>{() => 1}</div>` receives a slots object, not a one-element array *)
